@@ -70,14 +70,14 @@ func VH_c02_update() {
 	case "partial-selector":
 		fp = vhPartial()
 		sel = l.NewSel()
-		verifrt.Fill("sel", sel, verifrt.Spec{Depth: 2, MaxUint: 999})
+		verifrt.Fill("sel", sel, verifrt.Spec{Depth: verifrt.Param("selDepth", 2), MaxUint: 999})
 		l.SetSel(fp, sel)
 		l.fillList("upd", upd, 1, nonKey)
 		verifrt.Assume(l.Len(upd) == 1)
 	case "delete-selector":
 		fd = vhDelete()
 		sel = l.NewSel()
-		verifrt.Fill("sel", sel, verifrt.Spec{Depth: 2, MaxUint: 999})
+		verifrt.Fill("sel", sel, verifrt.Spec{Depth: verifrt.Param("selDepth", 2), MaxUint: 999})
 		l.SetSel(fd, sel)
 	case "delete-elements":
 		fd = vhDelete()
@@ -87,7 +87,7 @@ func VH_c02_update() {
 	case "delete-selector-elements":
 		fd = vhDelete()
 		sel = l.NewSel()
-		verifrt.Fill("sel", sel, verifrt.Spec{Depth: 2, MaxUint: 999})
+		verifrt.Fill("sel", sel, verifrt.Spec{Depth: verifrt.Param("selDepth", 2), MaxUint: 999})
 		l.SetSel(fd, sel)
 		elem = l.NewElem()
 		verifrt.Fill("elem", elem, verifrt.Spec{Depth: 1, Only: nonKey})
@@ -95,7 +95,7 @@ func VH_c02_update() {
 	case "delete-partial":
 		fd = vhDelete()
 		sel = l.NewSel()
-		verifrt.Fill("sel", sel, verifrt.Spec{Depth: 2, MaxUint: 999})
+		verifrt.Fill("sel", sel, verifrt.Spec{Depth: verifrt.Param("selDepth", 2), MaxUint: 999})
 		l.SetSel(fd, sel)
 		fp = vhPartial()
 		l.fillList("upd", upd, M, l.Fields)
